@@ -1,7 +1,7 @@
 //! C01 — every backend implements one abstract file tree (operation contracts).
 
 use super::common::*;
-use crate::gen::{cfg_strategy, Profile};
+use crate::gen::Profile;
 use crate::hist::*;
 
 pub fn prop() -> HistProp {
@@ -12,7 +12,7 @@ pub fn prop() -> HistProp {
     opts.contract = true;
     HistProp {
         opts,
-        cfgs: || crate::gen::with_emb(cfg_strategy(2)),
+        cfgs: || crate::gen::with_emb(crate::gen::cfg_deep()),
         max_ops: 40,
         max_prepop: 8,
         cases_quick: 3000,
